@@ -107,6 +107,11 @@ pub fn dec_dump(out: &[u8], digit_bits: usize) -> Result<Dump, Problem> {
         let ascii: Vec<char> = ascii_txt.chars().collect();
         // the column delimiter cannot also be a character of the text column: a reader splitting the line at `|`
         // would see four columns
+        // the dump is ASCII text, one text-column character per cell: a cell's byte shown as a multi-byte character
+        // makes the column wider (in bytes) than the cells it stands for
+        if let Some(c) = ascii.iter().find(|c| !c.is_ascii()) {
+            return prob("ascii", format!("line {}: the text column holds the non-ASCII character {:?}", ln + 1, c));
+        }
         if ascii.contains(&'|') {
             return prob("syntax", format!("line {}: the text column contains the column delimiter `|`", ln + 1));
         }
